@@ -252,7 +252,11 @@ def run_impl(case):
                 obs.append(('state', impl_state(eng)))
             elif op[0] == 'remove':
                 _, m, gs = op
-                eng.remove_positions(m, [nodes[g][1] for g in gs])
+                # node_keys is documented as any iterable: lists, tuples, dict views and one-shot iterators alike
+                keys = [nodes[g][1] for g in gs]
+                form = (i + len(gs)) % 5
+                eng.remove_positions(m, keys if form == 0 else tuple(keys) if form == 1 else (k for k in keys) if form == 2
+                                     else iter(keys) if form == 3 else dict.fromkeys(keys).keys())
                 for g in gs:
                     shadow[g] = None
                 obs.append(('state', impl_state(eng)))
